@@ -115,6 +115,7 @@ def gen_table(tier, seed):
             lay["index_col"] = r.randrange(4)
             lay["csv"] = r.random() < 0.2
             lay["dup_labels"] = r.random() < 0.2
+            lay["via"] = r.choice([None, None, None, "csvreader", "xlsxreader"])     # through the parameter readers
             stats["index"][lay["index"]] = stats["index"].get(lay["index"], 0) + 1
             stats["csv"] += int(lay["csv"])
             faults = []
@@ -136,6 +137,13 @@ def gen_table(tier, seed):
                 stats["dup_label_relabel"] = stats.get("dup_label_relabel", 0) + 1
                 if r.random() < 0.7:
                     lay["wide"] = None
+            if miss and any(f["kind"] == "blank" for f in faults) and r.random() < 0.6:
+                # an empty cell in a sheet read by the Excel / CSV parameter reader with allow_missing_values
+                lay["via"] = r.choice(["xlsxreader", "xlsxreader", "csvreader"])
+                lay["index"] = "none"; lay["csv"] = False
+                if len(dims) > 1 and r.random() < 0.7:
+                    lay["wide"] = r.choice(dims)[1]
+                stats["reader_blank"] = stats.get("reader_blank", 0) + 1
             target = "existing" if r.random() < 0.35 else "new"
             stats["existing_target"] += int(target == "existing")
             ops.append({"op": "fromdf", "layout": lay, "faults": faults, "miss": miss, "extra": extra, "target": target})
